@@ -92,8 +92,14 @@ def main():
 
 
 def summarize(x):
+    """what the task sees: C19 promises the same VALUES to the task, so dtype and bytes are taken in the native byte order
+    (numpy's own pickling of a non-contiguous array of foreign byte order - the path used below the memmapping threshold -
+    delivers native-order data with equal values; a missing or doubled byte swap still changes the digest)"""
     import hashlib
-    return (type(x).__name__, str(x.dtype), tuple(x.shape), hashlib.md5(np.ascontiguousarray(x).tobytes() if not x.dtype.hasobject else repr(x.tolist()).encode()).hexdigest())
+    if x.dtype.hasobject:
+        return (type(x).__name__, str(x.dtype), tuple(x.shape), hashlib.md5(repr(x.tolist()).encode()).hexdigest())
+    nat = x.dtype.newbyteorder("=")
+    return (type(x).__name__, str(nat), tuple(x.shape), hashlib.md5(np.ascontiguousarray(x).astype(nat).tobytes()).hexdigest())
 
 
 def parallel_leg():
